@@ -953,6 +953,49 @@ impl Default for ReplicaState { #[verifier::external_body] fn default() -> Self 
               && (im.1.is_some() <==> p.proposal_payload.is_none()),
 """)
 
+def add_label(U):
+    """ConsensusMsg::label(): the selection function tells message KINDS apart by comparing labels, so the labels must be pairwise
+    distinct. The exec function is copied as usual; a spec copy (R-spec: same text, `&'static str` -> Seq<char>, every string literal
+    L -> L@) is generated from the same source, and the injectivity lemma's proof hints (reveal_strlit + one distinguishing length
+    or character per pair of DIFFERENT literals) are generated from the literals found in the current source. Two kinds sharing a
+    literal leave the lemma unprovable; renaming a label does not."""
+    from vx.items import load
+    from vx.lex import tokenize
+    it = load(U.repo, F_CONS).find(["impl ConsensusMsg", "fn label"])
+    lits = []
+    for t in tokenize(it.body_text()):
+        if t.kind == "str" and t.text not in lits:
+            lits.append(t.text)
+    U.fn(F_CONS, "impl ConsensusMsg :: fn label", wrap="impl ConsensusMsg", ret="r", props=["C16"],
+         subs=[("v2::ChonkyMsg", "ChonkyMsg", None)],
+         spec="    ensures r@ == self.spec_label(),\n")
+    U.fn(F_CONS, "impl ConsensusMsg :: fn label", wrap="impl ConsensusMsg", name="spec_label", props=["C16"], canary=False, vis=False,
+         label="impl ConsensusMsg :: spec fn spec_label (R-spec copy of label)",
+         header_subs=[("pub fn label", "pub open spec fn label"), ("&'static str", "Seq<char>")],
+         subs=[("v2::ChonkyMsg", "ChonkyMsg", None)] + [(l, l + "@", None) for l in lits])
+    hints = ["    " + " ".join("reveal_strlit(%s);" % l for l in lits)]
+    vals = [eval(l) if l.startswith('"') else None for l in lits]
+    for i in range(len(lits)):
+        for j in range(i + 1, len(lits)):
+            x, y = vals[i], vals[j]
+            if x is None or y is None or x == y:
+                continue
+            if len(x) != len(y):
+                hints.append("    assert(%s@.len() == %d && %s@.len() == %d);" % (lits[i], len(x), lits[j], len(y)))
+            else:
+                k = next(k for k in range(len(x)) if x[k] != y[k])
+                hints.append("    assert(%s@[%d] == %r && %s@[%d] == %r);" % (lits[i], k, x[k], lits[j], k, y[k]))
+    U.raw("""
+// messages of different kinds carry different labels (so comparing labels tells kinds apart); same kind => same label is by definition
+pub proof fn lemma_label_injective(a: ConsensusMsg, b: ConsensusMsg)
+    requires kind_of(a) != kind_of(b),
+    ensures a.spec_label() != b.spec_label(),
+{
+%s
+}
+""" % "\n".join(hints), label="lemma label injective (hints generated from the literals in /repo)", props=["C16"], canary=True)
+    U.sections[-1].meta.update(file=F_CONS, lines=list(it.line_span()))
+
 
 def add_select(U):
     """C16 (channel half): the selection function that decides which pending consensus message survives."""
@@ -962,21 +1005,11 @@ def add_select(U):
     U.item(F_IO, "struct ConsensusReq", subs=[("validator::Signed<validator::ConsensusMsg>", "Signed<ConsensusMsg>"), ("oneshot::Sender<()>", "AckSender")], props=["C16"])
     U.raw("""
 #[verifier::external_body] pub struct AckSender { _p: u8 }
-// ConsensusMsg::label() returns one string literal per message kind; comparing labels is comparing kinds (4 distinct literals, inspected)
-#[verifier::external_body] pub struct Label { _p: u8 }
 pub open spec fn kind_of(m: ConsensusMsg) -> int {
     match m { ConsensusMsg::V2(ChonkyMsg::LeaderProposal(_)) => 0, ConsensusMsg::V2(ChonkyMsg::ReplicaCommit(_)) => 1,
               ConsensusMsg::V2(ChonkyMsg::ReplicaNewView(_)) => 2, ConsensusMsg::V2(ChonkyMsg::ReplicaTimeout(_)) => 3 }
 }
-impl Label { pub uninterp spec fn kind(&self) -> int; }
-impl PartialEq for Label { #[verifier::external_body] fn eq(&self, o: &Self) -> (r: bool) { unimplemented!() } }
-impl PartialEqSpecImpl for Label {
-    open spec fn obeys_eq_spec() -> bool { true }
-    open spec fn eq_spec(&self, o: &Self) -> bool { self.kind() == o.kind() }
-}
 impl ConsensusMsg {
-    #[verifier::external_body]
-    pub fn label(&self) -> (r: Label) ensures r.kind() == kind_of(*self) { unimplemented!() }
     pub open spec fn spec_view_number(&self) -> ViewNumber {
         match self {
             ConsensusMsg::V2(ChonkyMsg::LeaderProposal(m)) => m.justification.spec_view().number,
@@ -996,6 +1029,7 @@ impl ConsensusMsg {
 }
 pub type FromNetworkMessage = ConsensusReq;
 """, label="prelude select", props=["C16"])
+    add_label(U)
     U.fn(F_CONS2, "impl ChonkyMsg :: fn view_number", wrap="impl ChonkyMsg", ret="r", props=["C16", "C10"],
          spec="    ensures r == ConsensusMsg::V2(*self).spec_view_number(),      // total: no panic for any (unverified) message\n")
     U.fn(F_CONS, "impl ConsensusMsg :: fn view_number", wrap="impl ConsensusMsg", ret="r", props=["C16", "C10"],
@@ -1004,7 +1038,9 @@ pub type FromNetworkMessage = ConsensusReq;
          spec="    ensures r == ConsensusMsg::V2(*self).spec_genesis(),\n")
     U.fn(F_CONS, "impl ConsensusMsg :: fn genesis", wrap="impl ConsensusMsg", ret="r", props=["C16", "C10"],
          spec="    ensures r == self.spec_genesis(),\n")
-    U.fn(F_LIB, "fn inbound_selection_function", ret="r", props=["C16"], spec="""
+    U.fn(F_LIB, "fn inbound_selection_function", ret="r", props=["C16"],
+         proof_at_start="proof { if kind_of(old_req.msg.msg) != kind_of(new_req.msg.msg) { lemma_label_injective(old_req.msg.msg, new_req.msg.msg); } }   /* W-ghost */",
+         spec="""
     ensures
         // messages of different senders or kinds never displace each other
         (old_req.msg.key != new_req.msg.key || kind_of(old_req.msg.msg) != kind_of(new_req.msg.msg)) ==> r == SelectionFunctionResult::Keep,
